@@ -93,6 +93,44 @@ Proof.
   - specialize (IH w o Hnf). destruct (run k w o) as [[[a w'] o''] tr]. econstructor; [|exact IH]. reflexivity.
 Qed.
 
+(** ... and, in addition, with directory listings in kernel order (no scripted order). *)
+Definition astep0 (f : fs) (ev : event) (f' : fs) : Prop :=
+  match ev with
+  | EvCall c r => exists e, e_order e = None /\ f' = fst (sem f e c) /\ r = snd (sem f e c)
+  | EvNow t => f' = tick f t
+  | _ => f' = f
+  end.
+
+Lemma astep0_astep f ev f' : astep0 f ev f' -> astep f ev f'.
+Proof. destruct ev; cbn; auto. intros (e & _ & H). exists e. exact H. Qed.
+
+Theorem run_asteps0 {A} (p : prog A) : forall w o, o_fault o = None -> o_orders o = [] ->
+  let '(_, w', _, tr) := run p w o in steps astep0 (w_fs w) tr (w_fs w').
+Proof.
+  induction p as [a|c k IH|k IH|wt k IH|n k IH|h i k IH|h i v k IH|k IH|t pl k IH]; intros w o Hnf Hno; cbn [run].
+  - constructor.
+  - assert (Hto : take_order c o = (None, [])) by (unfold take_order; rewrite Hno; destruct (is_readdir c); reflexivity).
+    rewrite Hto. destruct (do_call w o c None) as [f' r] eqn:Hd.
+    match goal with |- context [run (k r) ?w1 ?o1] => specialize (IH r w1 o1 Hnf eq_refl); destruct (run (k r) w1 o1) as [[[a w'] o''] tr] end.
+    cbn [w_fs] in IH. econstructor; [|exact IH].
+    unfold do_call in Hd. rewrite Hnf in Hd. cbn [astep0]. exists (mkEnv (o_gran o) (o_atime o) None). rewrite Hd. repeat split; reflexivity.
+  - destruct (pop (kclock (w_fs w)) (o_times o)) as [t ts].
+    match goal with |- context [run (k t) ?w1 ?o1] => specialize (IH t w1 o1 Hnf Hno); destruct (run (k t) w1 o1) as [[[a w'] o''] tr] end.
+    econstructor; [|exact IH]. reflexivity.
+  - destruct (do_trigger w o wt) as [[fired c'] ds'].
+    match goal with |- context [run (k fired) ?w1 ?o1] => specialize (IH fired w1 o1 Hnf Hno); destruct (run (k fired) w1 o1) as [[[a w'] o''] tr] end.
+    econstructor; [|exact IH]. reflexivity.
+  - destruct (pop 0%N (o_shards o)) as [x xs].
+    match goal with |- context [run (k ?y) ?w1 ?o1] => specialize (IH y w1 o1 Hnf Hno); destruct (run (k y) w1 o1) as [[[a w'] o''] tr] end.
+    econstructor; [|exact IH]. reflexivity.
+  - apply IH; assumption.
+  - match goal with |- context [run k ?w1 ?o1] => specialize (IH w1 o1 Hnf Hno); destruct (run k w1 o1) as [[[a w'] o''] tr] end. exact IH.
+  - destruct (pop "tmp"%string (o_fresh o)) as [s ss].
+    match goal with |- context [run (k s) ?w1 ?o1] => specialize (IH s w1 o1 Hnf Hno); destruct (run (k s) w1 o1) as [[[a w'] o''] tr] end.
+    econstructor; [|exact IH]. reflexivity.
+  - specialize (IH w o Hnf Hno). destruct (run k w o) as [[[a w'] o''] tr]. econstructor; [|exact IH]. reflexivity.
+Qed.
+
 (** Invariants along an accepted monitor run. *)
 Theorem steps_inv {S} (R : fs -> event -> fs -> Prop) (m : S -> event -> option S) (I : S -> fs -> Prop) :
   (forall s ev s' f f', m s ev = Some s' -> R f ev f' -> I s f -> I s' f') ->
